@@ -1324,7 +1324,7 @@ def run(ctx):
     q = ctx.quick
     g1, cases, unb = run_g1(ctx)
     ncases = len(cases)
-    g2, g2skip = run_g2(ctx, 520 if q else 4500, 400 if q else 3500)
+    g2, g2skip = run_g2(ctx, 400 if q else 2000, 300 if q else 1600)
     corpus, cskip = run_corpus(ctx)
     allrecs = g1 + g2 + corpus
     # one TLC run judges every record (JVM start-up dominates small batches)
